@@ -36,6 +36,7 @@ def kindOfString : String → Option OpKind
   | "dropUq" => some .dropUq
   | "addFk" => some .addFk
   | "dropFk" => some .dropFk
+  | "tableComment" => some .tableComment
   | _ => none
 
 def kindToString : OpKind → String
@@ -50,6 +51,7 @@ def kindToString : OpKind → String
   | .dropUq => "dropUq"
   | .addFk => "addFk"
   | .dropFk => "dropFk"
+  | .tableComment => "tableComment"
 
 def tblOfJson (j : Json) : Tbl :=
   { schema := optStr j "schema"
@@ -138,12 +140,15 @@ structure Case where
 def caseOfJson (j : Json) : Case :=
   let differ : List (Option String × String × String) :=
     (getArr j "colDiffer").map (fun e => (optStr e "schema", getStrD e "table", getStrD e "col"))
+  let tcomm : List (Option String × String) :=
+    (getArr j "tableCommentDiffer").map (fun e => (optStr e "schema", getStrD e "table"))
   let pj := getObj j "objPred"
   let nj := getObj j "namePred"
   { P := { colDiffer := fun k c => differ.contains (k.1, k.2, c)
            idxDiffer := fun c m => c.sig != m.sig || c.unique != m.unique
            uqDiffer := fun c m => c.sig != m.sig
-           supportsUq := getBoolD j "supportsUq" true }
+           supportsUq := getBoolD j "supportsUq" true
+           tableCommentDiffer := fun k => tcomm.contains (k.1, k.2) }
     objF := evalObj ((getArr pj "rules").map ruleOfJson) (getBoolD pj "default" true)
     nameF := evalName ((getArr nj "rules").map ruleOfJson) (getBoolD nj "default" true)
     schemas := (getArr j "schemas").map asStr?
